@@ -104,6 +104,11 @@ class Renderer:
         return '(' + ', '.join(parts) + ')' if parts else ''
 
     def _type_ref_flat(self, t):
+        if t.kind == 'raw':
+            return t.name + ('?' if t.nullable else '')
+        if t.kind == 'rawref':
+            base = t.name if t.ns == self.cur_ns else '%s.%s' % (t.ns, t.name)
+            return base + t.args['suffix'] + ('?' if t.nullable else '')
         if t.kind == 'prim':
             parts = []
             if t.name == 'Timestamp':
@@ -233,6 +238,8 @@ class Renderer:
                 body.extend(self.field_lines(f, level + 1, inl.get(id(f))))
             patched = {f.name for f in d.patch_fields}
             for ex in d.examples:
+                if getattr(ex, 'patch_only', False):
+                    continue
                 names = [n for n in ex.values if n not in patched]
                 body.extend(self.example_lines(ex, level + 1, names))
             assert body, ('empty body', d.name)
@@ -275,6 +282,8 @@ class Renderer:
                 L.append(Line(level + 1, 'attrs'))
                 for k, v in d.attrs.items():
                     L.append(Line(level + 2, '%s = %s' % (k, self.ev_txt(v) if v[0] != 'tag' else v[1])))
+                    if getattr(d, 'dup_attr', None) == k:
+                        L.append(Line(level + 2, '%s = %s' % (k, self.ev_txt(v) if v[0] != 'tag' else v[1])))
         elif kind == 'annotation':
             if isinstance(d.atype, str):
                 tn = d.atype
@@ -426,6 +435,12 @@ class Renderer:
             L.append(Line(0, 'struct Route'))
             for f in m.cfg_fields:
                 L.extend(self.field_lines(f, 1))
+            if not m.cfg_fields:
+                L.append(Line(1, '"no attributes"'))
+            for xl in (getattr(m, 'cfg_extra', '') or '').split('\n'):
+                if xl:
+                    L.append(Line(0, ''))
+                    L.append(Line(0, xl)) if not xl.startswith(' ') else L.append(Line(1, xl.strip()))
             files.append(('stone_cfg.stone', L))
         if lay.on('perm_files', 0.8):
             rnd.shuffle(files)
